@@ -26,10 +26,10 @@ MODULE = "AurelVerif.Props.C18"
 THEOREMS = ["AurelVerif.C18." + t for t in (
     "parse_format_key", "parse_format_file", "parse_format_checkpoint", "parse_h5file_ignores_directory",
     "print_parse_roundtrip", "print_parse_roundtrip_unconditional_is_false", "restarts_done_spec",
-    "iterations_call_spec", "incremental_eq_fresh", "iterations_idempotent", "stable_criterion",
+    "iterations_call_spec", "incremental_eq_fresh", "iterations_idempotent", "stable_criterion", "stable_prefix",
     "scan_level_faithful", "content_cached_eq_scanned", "content_key_roundtrip",
     "overall_no_singles_independent_of_linspace", "linspace_is_not_membership",
-    "overall_drops_iteration_witness", "overall_full_is_false", "exS_stable")]
+    "overall_drops_iteration_witness", "overall_full_is_false", "exS_stable", "exS0_stable")]
 FILES = ["AurelVerif/Props/C18.lean", "AurelVerif/Lemmas/Catalog.lean", "AurelVerif/Lemmas/CatalogParse.lean",
          "AurelVerif/Lemmas/CatalogIncr.lean", "AurelVerif/Lemmas/CatalogScan.lean",
          "AurelVerif/Model/Catalog.lean", "Driver/C18.lean"]
@@ -525,7 +525,7 @@ def oracle_check(ctx, reading, tree, last_result, ops):
                 if len(its) >= 2 and len({b - a for a, b in zip(its, its[1:])}) != 1:
                     ok = False
                 truth |= set(its)
-        if not ok or not truth:
+        if not ok or not truth or tree.plan.get("irregular"):
             continue
         segs = res.get("overall", {}).get("rl = %d" % l, [])
         got = set().union(*[expand(s) for s in segs]) if len(segs) else set()
@@ -552,9 +552,10 @@ def fresh_scan_check(ctx, reading, tree, last_result, ops):
     try:
         dst = os.path.join(tmp, tree.simname)
         shutil.copytree(tree.simdir, dst)
-        for p in [os.path.join(dst, "iterations.txt")] + _glob.glob(os.path.join(_glob.escape(dst), "output-*", "*", "content.txt")):
-            if os.path.exists(p):
-                os.remove(p)
+        for dp, _, fns in os.walk(dst):
+            for fn in fns:
+                if fn in ("iterations.txt", "content.txt"):
+                    os.remove(os.path.join(dp, fn))
         param = {"simpath": tmp + "/", "simname": tree.simname}
         e, fresh = call(reading.iterations, param, skip_last=False, verbose=False)
         if e:
@@ -879,10 +880,78 @@ def excluded_points(ctx, reading):
             last = ("err", e2) if e2 else ("ok", r2)
             res[name] = e2 if e2 else "ok"
             found += oracle_check(ctx, reading, tree, last, log)
+        # the np.linspace membership test of collect_overall_iterations: restart from a
+        # checkpoint inside the previous range that wrote a single iteration, and the converse
+        for j, (its0, its1) in enumerate([([0, 2, 4, 6], [4]), ([640], [512, 640, 768, 896, 1024])]):
+            plan = {"name": "simA", "layout": "onefile", "nchunks": 0, "with_m": False, "xyz": 0, "with_attr": True,
+                    "numbers": [0, 1], "adversarial": False,
+                    "restarts": [{"levels": [{"stride": 2, "its": its0}], "checkpoints": [], "empty": False,
+                                  "variables": (["alp"], [])},
+                                 {"levels": [{"stride": 2, "its": its1}], "checkpoints": [], "empty": False,
+                                  "variables": (["alp"], [])}]}
+            sub = os.path.join(root, "l%d" % j)
+            os.makedirs(sub)
+            tree = Tree(ctx, plan, sub)
+            l, e, log = run_sequence(ctx, reading, tree, 0, ops=[("add",), ("add",), ("iter", False)])
+            e2, r2 = call(reading.iterations, tree.param, skip_last=False, verbose=False)
+            res["overall %r + %r" % (its0, its1)] = e2 if e2 else repr(
+                [[int(x) for x in sg] for sg in r2["overall"].get("rl = 0", [])])
+            found += oracle_check(ctx, reading, tree, ("err", e2) if e2 else ("ok", r2), log)
+        # documented effect of skip_last: the last restart is not catalogued
+        plan = {"name": "simB", "layout": "onefile", "nchunks": 0, "with_m": False, "xyz": 0, "with_attr": True,
+                "numbers": [0, 1], "adversarial": False,
+                "restarts": [{"levels": [{"stride": 2, "its": [0, 2, 4]}], "checkpoints": [], "empty": False,
+                              "variables": (["alp"], [])},
+                             {"levels": [{"stride": 2, "its": [6, 8]}], "checkpoints": [], "empty": False,
+                              "variables": (["alp"], [])}]}
+        sub = os.path.join(root, "k0")
+        os.makedirs(sub)
+        tree = Tree(ctx, plan, sub)
+        run_sequence(ctx, reading, tree, 0, ops=[("add",), ("add",)])
+        e2, r2 = call(reading.iterations, tree.param, skip_last=True, verbose=False)
+        got = e2 if e2 else sorted(k for k in r2 if k != "overall")
+        res["skip_last=True on restarts 0,1"] = repr(got)
+        if got != [0]:
+            found += 1 if ctx.violation("iterations(skip_last=True) on restarts [0, 1] catalogued %r, expected [0]" % (got,),
+                                        {"kind": "history", "plan": plan, "ops": [["add"], ["add"], ["iter", True]]},
+                                        {"site": "skip_last", "name_class": "benign"}) else 0
     finally:
         shutil.rmtree(root, ignore_errors=True)
     ctx.cov["excluded_points_real_code"] = res
     return found
+
+
+def parameters_observation(ctx, reading):
+    """parameters() is not modelled; record (not judge) how literal values of a
+    generated .par file come back (int / float / quoted string)."""
+    vals = {"A::i1": ("7", 7), "A::i2": ("-12", -12), "A::f1": ("0.5", 0.5), "A::f2": ("1e-5", 1e-5),
+            "A::f3": ("-1.5e-3", -1.5e-3), "A::f4": ("+2.5e+2", 250.0), "A::s1": ('"hello"', "hello"),
+            "A::s2": ('"a=b::c"', "a=b::c"), "A::s3": ('"x # y"', "x # y"), "B::i1": ("3", 3)}
+    root = tempfile.mkdtemp(prefix="c18p-")
+    old = os.environ.get("SIMLOC")
+    obs = {}
+    try:
+        d = os.path.join(root, "p", "output-0000")
+        os.makedirs(d)
+        grid = "".join("CoordBase::%smin = -1.0\nCoordBase::%smax = 1.0\nCoordBase::d%s = 0.5\n" % (c, c, c) for c in "xyz")
+        with open(os.path.join(d, "p.par"), "w") as f:
+            f.write('ActiveThorns = "A B"\n' + grid + "".join("%s = %s\n" % (k, v[0]) for k, v in vals.items()))
+        os.environ["SIMLOC"] = root + "/"
+        e, r = call(reading.parameters, "p")
+        if e:
+            obs["parameters()"] = e
+        else:
+            for k, (txt, want) in vals.items():
+                got = r.get(k.split("::")[1], r.get(k))
+                if got != want or type(got) is not type(want):
+                    obs["%s = %s" % (k, txt)] = repr(got)
+    finally:
+        if old is None:
+            os.environ.pop("SIMLOC", None)
+        else:
+            os.environ["SIMLOC"] = old
+        shutil.rmtree(root, ignore_errors=True)
+    ctx.cov["parameters_values_not_round_tripped (not modelled, informational)"] = obs
 
 
 def run(ctx):
@@ -903,6 +972,7 @@ def run(ctx):
     regex_differential(ctx, reading)
     found = correspondence(ctx, reading)
     found += excluded_points(ctx, reading)
+    parameters_observation(ctx, reading)
     ctx.cov["violations_found"] = found
 
 
